@@ -211,9 +211,65 @@ def g_layer(spec, r):
         yield "layer:" + "/".join(l["name"] for l in rec["layers"]), rec["data"], None
 
 
+CTX_WRAPS = [(b"cmd /c start ", b""), (b"CreateObject(", b")"), (b"x 'powershell iwr ", b"'"), (b"(cmd /c echo ", b") zz"),
+             (b"createobject(createobject( ", b" ))"), (b"\"powershell -c ", b"\""), (b"cmd /c echo admin@", b""),
+             (b"", b"")]
+
+
+def decodable_with_inner(r) -> bytes:
+    """A decodable expression whose *encoded span* contains raw indicators of its own."""
+    k = r.randrange(8)
+    dom = netgen.domain(r)
+    ip = netgen.ipv4(r)
+    if k == 0:
+        return b"http://" + dom + b"/" + base64.b64encode(b"evil." + dom + b"/malware.exe")
+    if k == 1:
+        return b"https://user:pw@" + ip + b":8080/a/../" + netgen.label(r) + b".exe?q=%41#f"
+    if k == 2:
+        return b'"ht" + "tp://' + ip + b'/x.exe"'
+    if k == 3:
+        return b"\\\\" + r.choice([ip, dom]) + b"\\share\\..\\" + netgen.label(r) + b".exe"
+    if k == 4:
+        return b"unescape('%68ttp://" + ip + b"/" + netgen.label(r) + b".dll')"
+    if k == 5:
+        return base64.b64encode(b"connect to " + dom + b" and " + ip + b" now please")
+    if k == 6:
+        return b"reverse('" + (b"visit " + dom)[::-1] + b"') " + dom[::-1]
+    return b"C:\\Users\\.\\" + netgen.label(r) + b"\\..\\" + netgen.exe_name(r)
+
+
+def g_ctxdec(spec, r):
+    """Decoded hit inside an undecoded context at a positive offset, with raw hits inside its span."""
+    while True:
+        pre, post = r.choice(CTX_WRAPS)
+        lead = r.choice([b"", b"xx ", b"padding padding ", netgen.offsets_prefix(r)])
+        body = decodable_with_inner(r)
+        extra = r.choice([b"", b" " + netgen.email(r), b" and " + decodable_with_inner(r), b" " + netgen.domain(r)])
+        yield "ctxdec", lead + pre + body + extra + post + r.choice([b"", b" tail"]), None
+
+
+def g_nest(spec, r):
+    """k properly nested raw indicators at positive offsets (contexts inside contexts)."""
+    while True:
+        k = r.randint(1, 6)
+        core = r.choice([netgen.email(r), b"see " + netgen.domain(r) + b" ok", netgen.posix_path(r), b"strlen " + netgen.ipv4(r),
+                         b"cmd /c echo " + netgen.email(r)])
+        for _ in range(k):
+            w = r.randrange(4)
+            if w == 0:
+                core = b"CreateObject( " + core + b" )"
+            elif w == 1:
+                core = b"x 'powershell " + core + b"'"
+            elif w == 2:
+                core = b"(cmd /c " + core + b")"
+            else:
+                core = b"zz " + core
+        yield "nest", r.choice([b"", b"q ", b"lorem ipsum "]) + core, None
+
+
 GENERATORS = {
     "skel": g_skel, "xor": g_xor, "cmd": g_cmd, "pe": g_pe, "xorbytes": g_xorbytes, "matryoshka": g_matryoshka,
-    "nesting": g_nesting, "seedmut": g_seedmut, "soup": g_soup, "large": g_large, "repeat": g_repeat, "url": g_url, "ioc": g_ioc, "layer": g_layer,
+    "nesting": g_nesting, "seedmut": g_seedmut, "soup": g_soup, "large": g_large, "repeat": g_repeat, "url": g_url, "ioc": g_ioc, "layer": g_layer, "ctxdec": g_ctxdec, "nest": g_nest,
 }
 
 
